@@ -42,7 +42,7 @@ Proof.
   rewrite IH. apply upd_length.
 Qed.
 
-Lemma pstep_mask_length tris s : length (p_mask (pstep tris s)) = length (p_mask s).
+Lemma pstep_mask_length tris orc s : length (p_mask (pstep tris orc s)) = length (p_mask s).
 Proof.
   unfold pstep. destruct (p_any s); simpl.
   - destruct (find_tri tris (p_free s) (p_indices s)) as [[[i fl] es] |]; simpl; [| reflexivity].
@@ -52,13 +52,13 @@ Proof.
     + apply set_all_length.
 Qed.
 
-Lemma ploop_mask_length tris fuel : forall s, length (p_mask (ploop fuel tris s)) = length (p_mask s).
+Lemma ploop_mask_length tris orc fuel : forall s, length (p_mask (ploop fuel tris orc s)) = length (p_mask s).
 Proof.
   induction fuel as [| fuel IH]; intros s; simpl; [reflexivity |].
   destruct (p_indices s); [reflexivity |]. rewrite IH. apply pstep_mask_length.
 Qed.
 
-Lemma mask_length tris oracle : length (get_inwards_mask tris oracle) = length tris.
+Lemma mask_length tris (orc : face -> bool) : length (get_inwards_mask tris orc) = length tris.
 Proof.
   unfold get_inwards_mask, pfinal. rewrite ploop_mask_length. unfold pinit. simpl. apply repeat_length.
 Qed.
@@ -67,7 +67,7 @@ Lemma F2_length {A B} (P : A -> B -> Prop) l l' : Forall2 P l l' -> length l = l
 Proof. induction 1; simpl; congruence. Qed.
 
 (* reorientation, for every answer of the geometric seed test *)
-Theorem reorientation_preserves fs oracle :
+Theorem reorientation_preserves fs (oracle : face -> bool) :
   let fs' := fix_trimesh_orientation fs oracle in
   mesh_equiv fs fs' /\
   length fs' = length fs /\
@@ -112,14 +112,14 @@ Fixpoint list_eqb_face (a b : list face) : bool :=
 
 Definition tet_ok (m : list bool) : bool :=
   let fs := apply_mask tet m in
-  nodupb (directed_edges (fix_trimesh_orientation fs [false])) &&
-  nodupb (directed_edges (fix_trimesh_orientation fs [true])) &&
-  list_eqb_face (fix_trimesh_orientation fs [true]) (map flip_face (fix_trimesh_orientation fs [false])).
+  nodupb (directed_edges (fix_trimesh_orientation fs (fun _ => false))) &&
+  nodupb (directed_edges (fix_trimesh_orientation fs (fun _ => true))) &&
+  list_eqb_face (fix_trimesh_orientation fs (fun _ => true)) (map flip_face (fix_trimesh_orientation fs (fun _ => false))).
 
 Lemma tet_orientation_bounded : forall m, In m (masks 4) ->
   let fs := apply_mask tet m in
-  consistent (fix_trimesh_orientation fs [false]) /\ consistent (fix_trimesh_orientation fs [true]) /\
-  list_eqb_face (fix_trimesh_orientation fs [true]) (map flip_face (fix_trimesh_orientation fs [false])) = true.
+  consistent (fix_trimesh_orientation fs (fun _ => false)) /\ consistent (fix_trimesh_orientation fs (fun _ => true)) /\
+  list_eqb_face (fix_trimesh_orientation fs (fun _ => true)) (map flip_face (fix_trimesh_orientation fs (fun _ => false))) = true.
 Proof.
   assert (H : forallb tet_ok (masks 4) = true) by (vm_compute; reflexivity).
   rewrite forallb_forall in H. intros m Hm. specialize (H m Hm). unfold tet_ok in H.
